@@ -38,7 +38,7 @@ ASSUMPTIONS = [
     'each text restores or re-initialises the 16 private snapshot bytes it pokes and uses text-unique variable, macro and snapshot names, because the HTML writer expands '
     'some fields more than once and in a different order than the ASM writer',
 ]
-MIN_NONTRIVIAL = {'quick': 3000, 'thorough': 100000}
+MIN_NONTRIVIAL = {'quick': 2000, 'thorough': 60000}
 N_FILES = {'quick': 400, 'thorough': 16000}
 CHUNKS_PER_FILE = 40
 
@@ -83,8 +83,19 @@ def run_tools(skool, argv, tag='f'):
     return ra, rh, asm, html, nfiles
 
 def expected_for(chunk, f, pc):
-    out, st, ev = mg.evaluate(chunk.tree, f['base_state'], f['opts'], pc)
+    try:
+        out, st, ev = mg.evaluate(chunk.tree, f['base_state'], f['opts'], pc)
+    except ref.Undefined:
+        return None
     return out
+
+def expected_with_let_strip(chunk, f, pc):
+    st = f['base_state'].copy()
+    o = f['opts']
+    try:
+        return ref.Evaluator(st, o['base'], o['case'], o['cmdvars'], pc, let_strip=True).text(chunk.tree, ref.Env())
+    except ref.Undefined:
+        return None
 
 def single_file(f, chunk, slot_kind):
     """A minimal skool file with one chunk at one position kind (for isolation / replay). Returns (skool, pc)."""
@@ -112,7 +123,7 @@ def single_file(f, chunk, slot_kind):
     pc = {'title': 30000, 'description': 30000, 'register': 30000, 'start-comment': 30000, 'mid-block': 30001, 'instruction': 30001, 'end-comment': 30001}[slot_kind]
     return '\n'.join(lines) + '\n' + tail, pc
 
-def classify(chunk, asm_ok, html_ok, asm_val, html_vals, exp, rh_err=None):
+def classify(chunk, asm_ok, html_ok, asm_val, html_vals, exp, rh_err=None, alt=None):
     """Mechanism predicates of the candidate findings (each over the witness, not over seeds)."""
     hz = chunk.hazard
     if hz == 'esc' and asm_ok and not html_ok and html_vals:
@@ -121,7 +132,8 @@ def classify(chunk, asm_ok, html_ok, asm_val, html_vals, exp, rh_err=None):
             return HAZARDS['esc']
     if hz == 'fmt-angle' and asm_ok and rh_err and 'Invalid format string' in rh_err:
         return HAZARDS['fmt-angle']
-    if hz == 'let-space' and html_ok and not asm_ok:
+    if hz == 'let-space' and html_ok and not asm_ok and alt is not None and asm_val == alt:
+        # ASM output is what the reference gives when #LET strips the string value
         return HAZARDS['let-space']
     return None
 
@@ -160,7 +172,9 @@ def check_file(shard, f, file_key, isolate=True):
         results[key] = asm_ok and html_ok
         if asm_ok and html_ok:
             continue
-        fid = classify(chunk, asm_ok, html_ok, a, hs, exp)
+        fid = classify(chunk, asm_ok, html_ok, a, hs, exp, alt=expected_with_let_strip(chunk, f, s.pc) if chunk.hazard == 'let-space' else None)
+        if fid:
+            rp['finding'] = fid
         bad_h = [h for h in hs if h != exp]
         what = ('%s%s at %s position (pc %d), options %s\ntext:     %s\nexpected: %r\nasm:      %r\nhtml:     %r' % (
             'ASM differs from the documented value' if not asm_ok else 'ASM matches the documented value',
@@ -186,8 +200,10 @@ def isolate_failures(shard, f, fail):
             fid = classify(chunk, ra1.ok, rh1.ok, None, None, None, rh_err=(rh1.err or '') + (rh1.exc or ''))
         what = 'tool failure on a text whose documented meaning is defined: skool2asm %s; skool2html %s\nposition: %s, options %s\ntext: %s' % (
             'ok' if ra1.ok else ra1.describe(), 'ok' if rh1.ok else rh1.describe(), kind, f['argv'], chunk.text)
-        shard.violation(what, {'skool': skool, 'argv': f['argv'], 'cid': chunk.cid, 'pid': 0, 'kind': kind, 'text': chunk.text,
-                               'expected': expected_for(chunk, f, pc)}, fid)
+        rp = {'skool': skool, 'argv': f['argv'], 'cid': chunk.cid, 'pid': 0, 'kind': kind, 'text': chunk.text, 'expected': expected_for(chunk, f, pc)}
+        if fid:
+            rp['finding'] = fid
+        shard.violation(what, rp, fid)
         if found >= 3:
             break
     if not found:
@@ -238,14 +254,21 @@ def run(shard, spec):
     isolated = 0
     if spec['shard'] == 0:
         run_negative(shard)
-    for fi in range(spec['shard'], n, spec['of']):
-        rng = shard.rng('file', fi)
+    # hazard classes (one text per file, because a tool failure loses the whole file): every shard starts with two
+    # files of one class, so that each class is exercised in every run; afterwards every 40th file is a hazard file
+    work = [('hazard', spec['shard'], j) for j in range(2)] + [('file', fi, 0) for fi in range(spec['shard'], n, spec['of'])]
+    for kind, fi, j in work:
         hazard = None
         nch = CHUNKS_PER_FILE
-        if fi % 40 == 39:
-            # hazard classes: one text per file, because a tool failure loses the whole file
-            hazard = ['esc', 'fmt-angle', 'let-space'][(fi // 40) % 3]
+        if kind == 'hazard':
+            rng = shard.rng('hazard', fi, j)
+            hazard = ['esc', 'fmt-angle', 'let-space'][fi % 3]
             nch = 1
+        else:
+            rng = shard.rng('file', fi)
+            if fi % 40 == 39:
+                hazard = ['esc', 'fmt-angle', 'let-space'][(fi // 40) % 3]
+                nch = 1
         f = mg.make_file(rng, nch, hazard=hazard)
         try:
             with harness.time_limit(120):
@@ -255,7 +278,10 @@ def run(shard, spec):
             shard.inc('watchdog_fired')
             continue
         if fail is not None:
-            if isolated < 4:
+            if len(f['chunks']) == 1:
+                # already a single-text file: no isolation needed
+                isolate_failures(shard, f, fail)
+            elif isolated < 4:
                 isolated += 1
                 isolate_failures(shard, f, fail)
             else:
@@ -278,7 +304,7 @@ def run(shard, spec):
                 shard.hist('spelling', k, v)
             if c.hazard:
                 shard.inc('observed:hazard_class_texts')
-        if fi < 2 and f['chunks']:
+        if kind == 'file' and fi < 2 and f['chunks']:
             c = f['chunks'][0]
             shard.sample({'text': c.text, 'expected_at_pc_30000': expected_for(c, f, 30000), 'options': f['argv'], 'features': c.features})
         if shard.out_of_time():
@@ -313,9 +339,9 @@ def replay(shard, rp):
         print('asm:     ', av)
         print('html:    ', sorted(set(hv)))
         if not (ra.ok and rh.ok) or av != [rp['expected']] or any(h != rp['expected'] for h in hv) or not hv:
-            shard.violation('replayed: still differs', rp)
+            shard.violation('replayed: still differs', rp, rp.get('finding'))
     elif not (ra.ok and rh.ok):
-        shard.violation('replayed: tool still fails', rp)
+        shard.violation('replayed: tool still fails', rp, rp.get('finding'))
     shard.case(('replay',), True)
 
 TECHNIQUE = ('boundary recorder with sentinels on the real skool2asm and skool2html entry points; offline oracle = executable reference evaluators of the '
